@@ -3,6 +3,7 @@ import Mp.ProofsNILink
 import Mp.SortProofs
 import Mp.Analysis
 import Mp.FactChecks
+import Mp.ProofsAddr
 /-! C20 — property theorems (proved in the imported modules; statements are checked there, axioms audited here). -/
 #print axioms Mp.ni_path_full
 #print axioms Mp.rf_sub_path
@@ -12,3 +13,9 @@ import Mp.FactChecks
 #print axioms Mp.rootTop_path_mem
 #print axioms Mp.rootTop_sorted_nodup
 #print axioms Mp.FactChecks.root_fields_param_kinds
+#print axioms Mp.dedupPaths_covers
+#print axioms Mp.dedupPaths_from
+#print axioms Mp.dedupPaths_nodup
+#print axioms Mp.addrTop_nodup
+#print axioms Mp.addrTop_nonempty
+#print axioms Mp.addrParts_idents_mem
